@@ -32,6 +32,7 @@ type Session struct {
 	lastMaxInflight int
 	lastFlushTrace  string
 	graph           *graphTracker
+	sharedStore     bool // the store is used by other goroutines: its traffic is not this session's
 	keyCompare      func(a, b interface{}) (int, error)
 	lastActs        int
 	lastHsync       string
@@ -354,6 +355,9 @@ func (s *Session) Exec(line string) (obs string, viol string) {
 			link = *r.Link
 		}
 		calls := s.Store.TakeStores()
+		if s.sharedStore {
+			calls = nil
+		}
 		for _, c := range calls {
 			if v := checkName(c); v != "" {
 				viol = v
@@ -363,7 +367,7 @@ func (s *Session) Exec(line string) (obs string, viol string) {
 			}
 			s.written[c.Name] = string(c.Bytes)
 		}
-		if viol == "" && s.Cfg.Cache == "none" {
+		if viol == "" && s.Cfg.Cache == "none" && !s.sharedStore {
 			viol = s.checkIncremental(int(num(1)), r, calls)
 		}
 		s.setBase(int(num(1)), r)
